@@ -13,7 +13,7 @@ from ..program import AnalysisError, FuncInfo, Program, norm, walk_local, ancest
 from ..report import Check
 from ..types import Types
 from ..util import calls_in, fkey, is_method_call, node_calls, path_of, recv_of, where
-from .mgr import snapshot_loop_sends, MGR, CORE, const_resolver, self_call
+from .mgr import client_read_coverage, module_writers, snapshot_loop_sends, MGR, CORE, const_resolver, self_call
 from .c14 import conn_error_handlers, catches_conn_error
 from .c19 import module_param
 
@@ -71,6 +71,55 @@ def direct_mutations(prog, ty, f: FuncInfo) -> List[Tuple[str, ast.AST]]:
                 if last in ("modules", "logger_modules", "subs"):
                     out.append((CONTAINERS[last], n))
     return out
+
+
+def recv_loops(fnode: ast.FunctionDef):
+    """[(while loop, receive call, terminates_on_eof)] for every receive inside a `while` loop of fnode.  A receive that
+    returns 0 / b'' (peer closed) must not lead back to another iteration: its own result is tested and the zero case
+    leaves the loop."""
+    out = []
+    loops = [w for w in walk_local(fnode) if isinstance(w, ast.While)]
+    if not loops:
+        return out
+    g = C.build(fnode)
+    gs = flow.guard_states(g)
+    for w in loops:
+        head = next((n for n in g.nodes if n.kind == "test" and n.ast is w.test), None)
+        body_ids = {n.id for n in g.nodes if n.ast is not None and n.ast is not w.test and any(a is w for a in ancestors(n.ast))}
+        for n in g.nodes:
+            if n.id not in body_ids:
+                continue
+            for c in node_calls(n):
+                if not is_method_call(c, ("recv", "recv_into", "recvfrom")):
+                    continue
+                if any(isinstance(a, ast.While) and a is not w and any(x is w for x in ancestors(a)) for a in ancestors(c)):
+                    continue  # judged with the inner loop
+                v = n.ast.targets[0].id if n.kind == "stmt" and isinstance(n.ast, ast.Assign) and len(n.ast.targets) == 1 and isinstance(n.ast.targets[0], ast.Name) and n.ast.value is c else None
+                okl = False
+                if v is not None and head is not None:
+                    goals = [guards.parse(f"{v} != 0"), guards.parse(f"{v} > 0"), guards.parse(v), guards.parse(f"len({v}) != 0"), guards.parse(f"len({v}) > 0")]
+                    back = [e for e in g.pred[head.id] if e.src in body_ids]
+                    # facts on every way back to the loop test, plus the loop test itself holding for another iteration
+                    cont = [(w.test, True)]
+                    okl = bool(back)
+                    for e in back:
+                        paths = [list(p) + cont for p in gs.after_edge(e)]
+                        # only the ways back that pass this receive matter
+                        with guards.int_theory():
+                            if not any(not guards.any_path_implies(paths, gl) for gl in goals):
+                                if n.id in flow.reach(g, [n.id]) and e.src in flow.reach(g, [n.id], blocked={head.id}):
+                                    okl = False
+                out.append((w, c, okl))
+    return out
+
+
+def _recv_loop_fixture():
+    import os
+    p = os.path.join(os.path.dirname(os.path.dirname(os.path.dirname(os.path.abspath(__file__)))), "fixtures", "c03_recv_loop.py")
+    tree = ast.parse(open(p, encoding="utf-8").read())
+    from ..program import _set_parents
+    _set_parents(tree)
+    return {fn.name: [okl for _, _, okl in recv_loops(fn)] for fn in tree.body if isinstance(fn, ast.FunctionDef)}
 
 
 def run(prog: Program, chk: Check):
@@ -258,6 +307,66 @@ def run(prog: Program, chk: Check):
                     ok_paths = False
         T.decide(ok_paths, fkey(cmf, "Module.mod_id:sanitised"), where(cmf), f"an admitted module's client-chosen mod_id is within [0, {maxmod}) (index into ModulePID)",
                  "connect_module can admit a module whose client-chosen mod_id is not bounded by MAX_MODULES (later used as an array index)")
+    # views of a receive buffer have the buffer's length: self.X = memoryview(self.Y)
+    init = mm.methods["__init__"]
+    same_len: Dict[str, Set[str]] = {}
+    for a_ in walk_local(init.node):
+        if isinstance(a_, ast.Assign) and len(a_.targets) == 1 and isinstance(a_.value, ast.Call) and norm(a_.value.func) == "memoryview" and a_.value.args:
+            x_, y_ = path_of(a_.targets[0]), path_of(a_.value.args[0])
+            if x_ and y_:
+                same_len.setdefault(x_, {x_}).add(y_)
+                same_len.setdefault(y_, {y_}).add(x_)
+    _cfgs: Dict[str, tuple] = {}
+
+    def cfg_of(f):
+        if f.key not in _cfgs:
+            g_ = C.build(f.node)
+            _cfgs[f.key] = (g_, flow.guard_states(g_))
+        return _cfgs[f.key]
+
+    def size_bounded(f, n, operand, buf, depth=0):
+        """is the (client controlled) receive size `operand` into buffer `buf` bounded by 0 <= operand <= len(buf) at cfg node n of f?
+        Looks through a receive helper: a size parameter is judged at every call site against the buffer passed there; the
+        remainder form recv_into(view[k:], size - k) reduces to 0 <= k <= size and size bounded for view."""
+        if depth > 4:
+            return False
+        g_, gs_ = cfg_of(f)
+        res_ = const_resolver(prog, f.module)
+        cmap = guards.copy_map(f.node)
+        paths = [[(guards.fold_consts(guards.subst(e, cmap), res_), pol) for e, pol in p] for p in gs_.at(n)]
+
+        def holds(txt):
+            with guards.int_theory():
+                return not guards.any_path_implies(paths, guards.fold_consts(guards.subst(guards.parse(txt), cmap), res_))
+
+        if isinstance(operand, ast.BinOp) and isinstance(operand.op, ast.Sub) and isinstance(buf, ast.Subscript) and isinstance(buf.slice, ast.Slice) \
+                and buf.slice.lower is not None and buf.slice.upper is None and norm(buf.slice.lower) == norm(operand.right):
+            k, sz = norm(operand.right), norm(operand.left)
+            if holds(f"not ({k} < 0)") and holds(f"not ({k} > {sz})"):
+                return size_bounded(f, n, operand.left, buf.value, depth + 1)
+            return False
+        if isinstance(operand, ast.Name) and operand.id in f.params() and all(k_ == "param" for k_, _ in dataflow.definitions(f.node, operand.id)):
+            sites = cg.call_sites_of(f.key)
+            if not sites:
+                return False
+            for cf, cc in sites:
+                b = callgraph.bind_args(f, cc, bound_method=isinstance(cc.func, ast.Attribute))
+                a_op = b.get(operand.id)
+                a_buf = b.get(buf.id) if isinstance(buf, ast.Name) and buf.id in f.params() else buf
+                if a_op is None or a_buf is None:
+                    return False
+                if expr_taint(cf, a_op) is None:
+                    continue
+                cg_, _ = cfg_of(cf)
+                cn = next((m for m in cg_.nodes if any(x is cc for x in node_calls(m))), None)
+                if cn is None or not size_bounded(cf, cn, a_op, a_buf, depth + 1):
+                    return False
+            return True
+        x = norm(operand)
+        bufs = same_len.get(norm(buf), {norm(buf)})
+        goals_ = [f"not ({x} < 0) and not ({x} > len({b_}))" for b_ in sorted(bufs)] + [f"not ({x} < 0) and not ({x} > self.max_data_size)", f"not ({x} < 0) and not ({x} > {consts.get('MAX_MESSAGE_SIZE', 65535)})"]
+        return any(holds(t_) for t_ in goals_)
+
     sinks = 0
     for f in region.values():
         g = C.build(f.node)
@@ -285,6 +394,13 @@ def run(prog: Program, chk: Check):
                     reason = expr_taint(f, operand)
                     if reason is None:
                         T.ok(fkey(f, f"{what}"), where(f, sub), "operand is not client controlled")
+                        continue
+                    if limit[0] == "len":
+                        g2_, _ = cfg_of(f)
+                        n2_ = next((m for m in g2_.nodes if m.ast is n.ast and m.kind == n.kind), None)
+                        okb = n2_ is not None and size_bounded(f, n2_, operand, sub.args[0])
+                        T.decide(okb, fkey(f, f"{what}"), where(f, sub), f"client-controlled ({reason}) but bounded by a dominating guard (here or at every call site of the receive helper)",
+                                 f"{f.qual}: {what} is client controlled ({reason}) and not bounded on every path -> ValueError (negative or larger than the buffer)")
                         continue
                     gs = gs or flow.guard_states(g)
                     x = norm(operand)
@@ -333,6 +449,20 @@ def run(prog: Program, chk: Check):
                              f"{f.qual}: reading `{norm(sub)}` decodes client-supplied bytes as ASCII outside any handler -> UnicodeDecodeError for a non-ASCII name")
     if sinks < 8:
         raise AnalysisError(f"anchor vanished: expected >= 8 partial-primitive sinks in the uncaught region, found {sinks}")
+
+    # ---- L receive loops end when the peer has closed ---------------------------------------------------------------------
+    L = chk.rule("C03-L", "a loop that completes a partial receive leaves the loop when a receive returns 0 bytes (peer closed in the middle of a frame)", 1,
+                 "recv on a closed connection returns 0 at once, every time: a completion loop that does not test for it spins forever and the single-threaded manager serves nobody")
+    fxl = _recv_loop_fixture()
+    if fxl != {"spins_on_eof": [False], "stops_on_eof": [True], "stops_on_eof_truthy": [True], "loop_condition_tests_result": [True]}:
+        raise AnalysisError(f"C03-L self-check: fixtures/c03_recv_loop.py must yield one spinning and three terminating loops, got {fxl}")
+    nrl = 0
+    for f in prog.module(MGR).functions.values():
+        for w, c, okl in recv_loops(f.node):
+            nrl += 1
+            L.decide(okl, fkey(f, f"recv-loop:{norm(c)[:50]}"), where(f, c), "a 0-byte result leaves the loop",
+                     f"{f.qual}: `{norm(c)[:60]}` inside `while {norm(w.test)[:40]}` - when the peer has closed, the receive returns 0 and the loop runs again without end (manager hangs)")
+    L.ok("C03-L|scan", MGR, f"{nrl} receive loop(s) in manager.py; detector exercised on fixtures/c03_recv_loop.py")
 
     # ---- M mutate while iterating (interprocedural) --------------------------------------------------------------
     M = chk.rule("C03-M", "no loop over a live manager container whose body may (transitively) mutate that container without leaving the loop", 6,
@@ -442,7 +572,7 @@ def run(prog: Program, chk: Check):
     for nm, rhs in cmr.items():
         pass
     okl = False
-    for p_ in [rungs.at(reads[0])]:
+    for p_ in [rungs.at_expr(reads[0], rc)]:
         for gl in goals:
             if not guards.any_path_implies([[(guards.subst(e, {}), pol) for e, pol in path] for path in p_], guards.parse(gl)):
                 okl = True
@@ -454,7 +584,7 @@ def run(prog: Program, chk: Check):
         for d in walk_local(runf.node):
             if isinstance(d, ast.Assign) and isinstance(d.value, ast.Call) and norm(d.value) == f"self.modules.get({sock})" and lp_anc and any(x is lp_anc[0] for x in ancestors(d)):
                 v = path_of(d.targets[0])
-                if v and not guards.any_path_implies(rungs.at(reads[0]), guards.parse(v)):
+                if v and not guards.any_path_implies(rungs.at_expr(reads[0], rc), guards.parse(v)):
                     okl = True
     U.decide(okl and bool(lp_anc), fkey(runf, "service-loop-liveness"), where(runf, rc), "each ready socket is looked up in the table again right before it is read",
              f"run(): `{norm(rc)}` can read from a connection whose module an earlier frame of the same round already removed (closed socket -> OSError EBADF, not a ConnectionError)")
@@ -465,17 +595,16 @@ def run(prog: Program, chk: Check):
     nH = 0
     for f in mm.methods.values():
         for c in calls_in(f.node):
-            if is_method_call(c, "send_message") and ty.expr(f, recv_of(c)).is_cls("Module"):
+            if is_method_call(c, module_writers(prog)) and ty.expr(f, recv_of(c)).is_cls("Module"):
                 nH += 1
                 tr = next((a for a in ancestors(c) if isinstance(a, ast.Try) and any(c in calls_in(s) for s in a.body)), None)
                 okh = tr is not None and any(catches_conn_error(h) and any(self_call("remove_module")(x) or self_call("disconnect_module")(x) for s in h.body for x in calls_in(s)) for h in tr.handlers)
                 H.decide(okh, fkey(f, c), where(f, c), "write covered by a removing ConnectionError handler", f"{f.qual}: `{norm(c)}` is not covered by a ConnectionError handler that removes the module")
-    rd = mm.methods["read_message"]
-    for cf, cc in cg.call_sites_of(rd.key):
+    for rf, rc_, hs in client_read_coverage(prog, cg, mm):
         nH += 1
-        tr = next((a for a in ancestors(cc) if isinstance(a, ast.Try) and any(cc in calls_in(s) for s in a.body)), None)
-        okh = tr is not None and any(catches_conn_error(h) and any(self_call("remove_module")(x) or self_call("disconnect_module")(x) for s in h.body for x in calls_in(s)) for h in tr.handlers)
-        H.decide(okh, fkey(cf, cc), where(cf, cc), "read covered by a removing ConnectionError handler", f"{cf.qual}: read_message call is not covered by a removing ConnectionError handler")
+        okh = hs is not None and all(any(self_call("remove_module")(x) or self_call("disconnect_module")(x) for s_ in h.body for x in calls_in(s_)) for h in hs)
+        H.decide(okh, fkey(rf, rc_), where(rf, rc_), "read covered by a removing ConnectionError handler (here or around every call chain)",
+                 f"{rf.qual}: `{norm(rc_)[:60]}` is not covered by a ConnectionError handler that removes the module" + ("" if hs is None else " (a covering handler does not remove it)"))
     # accept() failures
     acc = [c for c in calls_in(runf.node) if is_method_call(c, "accept")]
     for c in acc:
